@@ -586,6 +586,12 @@ class MatInterp:
                     return Val('scal', l.v + r.v if isinstance(e.op, ast.Add) else l.v - r.v)
                 raise Unknown('sum of %s and %s' % (l.kind, r.kind))
             if isinstance(e.op, ast.Mult):
+                # broadcasting a vector of singular / eigen values against a matrix: along the LAST axis it scales the columns
+                # (M @ diag(v)); with a new trailing axis (v[:, None]) it scales the rows (diag(v) @ M)
+                for a_, b_ in ((l, r), (r, l)):
+                    if a_.kind == 'mat' and b_.kind in ('svals', 'svcol'):
+                        d_ = MT({(('dg', b_.v[0], b_.v[1]),): ONE})
+                        return Val('mat', mul(a_.v, d_, cx) if b_.kind == 'svals' else mul(d_, a_.v, cx))
                 if l.kind == 'scal' and r.kind == 'scal':
                     return Val('scal', l.v * r.v)
                 if l.kind == 'scal' and r.kind == 'mat':
@@ -636,6 +642,13 @@ class MatInterp:
                 b = self.ev(e.value, env, fn)
                 if b.kind == 'mat':
                     return Val('scal', T.Term.sym('elem[%s,%d,%d]' % (norm(e.value), e.slice.elts[0].value, e.slice.elts[1].value)))
+            # v[:, np.newaxis] of a vector of singular / eigen values: the column form
+            if isinstance(e.slice, ast.Tuple) and len(e.slice.elts) == 2 and isinstance(e.slice.elts[0], ast.Slice) \
+                    and e.slice.elts[0].lower is None and e.slice.elts[0].upper is None and e.slice.elts[0].step is None \
+                    and ((isinstance(e.slice.elts[1], ast.Constant) and e.slice.elts[1].value is None) or norm(e.slice.elts[1]) in ('np.newaxis', 'numpy.newaxis')):
+                b = self.ev(e.value, env, fn)
+                if b.kind == 'svals':
+                    return Val('svcol', b.v, b.extra)
             raise Unknown('subscript %s' % norm(e)[:40])
         if isinstance(e, (ast.Tuple, ast.List)):
             return Val('tuple', [self.ev(x, env, fn) for x in e.elts])
